@@ -179,7 +179,18 @@ func (g *zgen) jsonObj(depth int) string {
 // snippet emits a few lines that display something.
 func (g *zgen) snippet(lines *[]string, usesJSON *bool) {
 	add := func(s string) { *lines = append(*lines, s) }
-	switch g.t.Draw(14) {
+	switch g.t.Draw(15) {
+	case 14: // an error raised before the callee has run a statement, after earlier calls at other lines
+		f := "函" + g.v()
+		add(fmt.Sprintf("如何%s？\n\t输入甲\n\t输出甲 + 1\n", f))
+		n := 1 + g.t.Draw(4)
+		for i := 0; i < n; i++ {
+			add(fmt.Sprintf("（显示：（%s：%d））", f, i))
+			if g.t.Draw(2) == 1 {
+				add("注：间隔")
+			}
+		}
+		add(pick(g.t, []string{fmt.Sprintf("（显示：（%s：1、2））", f), fmt.Sprintf("（显示：（%s））", f), fmt.Sprintf("令非 = 5\n（显示：（非：1））")}))
 	case 13: // keys that spell the same number differently, indexed by number and by text
 		spell := [][]string{{"1", "1.0", "1.00", "01", "1*10^0"}, {"2000", "2*10^3", "2000.0", "2e3"}, {"0", "0.0", "-0", "00"}}[g.t.Draw(3)]
 		num := []string{"1", "2000", "0"}[0]
